@@ -12,6 +12,7 @@ Inductive ty :=
 | TArr (t : ty)
 | TFun (a b : ty)
 | TRec (r : rows)
+| TDict (t : ty)                 (* {_ : t} *)
 | TEnum (tags : list string)
 | TVar (n : nat)
 | TForall (t : ty)
@@ -39,6 +40,7 @@ Fixpoint shift (c : nat) (T : ty) : ty :=
   | TArr t => TArr (shift c t)
   | TFun a b => TFun (shift c a) (shift c b)
   | TRec r => TRec (shift_rows c r)
+  | TDict t => TDict (shift c t)
   | TEnum tags => TEnum tags
   | TVar n => if Nat.leb c n then TVar (S n) else TVar n
   | TForall t => TForall (shift (S c) t)
@@ -56,6 +58,7 @@ Fixpoint subst (k : nat) (S : ty) (T : ty) : ty :=
   | TArr t => TArr (subst k S t)
   | TFun a b => TFun (subst k S a) (subst k S b)
   | TRec r => TRec (subst_rows k S r)
+  | TDict t => TDict (subst k S t)
   | TEnum tags => TEnum tags
   | TVar n => match Nat.compare n k with
               | Eq => S
@@ -76,6 +79,7 @@ Fixpoint first_order (T : ty) : bool :=
   | TDyn | TNum | TStr | TBool => true
   | TArr t => first_order t
   | TRec r => first_order_rows r
+  | TDict t => first_order t
   | TEnum _ => true
   | TFun _ _ | TVar _ | TForall _ => false
   end
@@ -97,19 +101,24 @@ Inductive prim :=
 | PArrAt             (* std.array.at : Number -> Array a -> a *)
 | PArrCat            (* @ *)
 | PArrMap            (* std.array.map : (a -> b) -> Array a -> Array b *)
-| PEq.               (* == *)
+| PEq                (* == *)
+| PRecFields         (* std.record.fields : {_ : a} -> Array String *)
+| PRecValues         (* std.record.values : {_ : a} -> Array a *)
+| PRecHas            (* std.record.has_field : String -> {_ : a} -> Bool *)
+| PRecGet.           (* std.record.get : String -> {_ : a} -> a *)
 
 Definition prim_eqb (a b : prim) : bool :=
   match a, b with
   | PAdd, PAdd | PSub, PSub | PMul, PMul | PDiv, PDiv | PLt, PLt | PLe, PLe | PGt, PGt | PGe, PGe
   | PNot, PNot | PConcat, PConcat | PStrLen, PStrLen | PArrLen, PArrLen | PArrAt, PArrAt
-  | PArrCat, PArrCat | PArrMap, PArrMap | PEq, PEq => true
+  | PArrCat, PArrCat | PArrMap, PArrMap | PEq, PEq | PRecFields, PRecFields | PRecValues, PRecValues
+  | PRecHas, PRecHas | PRecGet, PRecGet => true
   | _, _ => false
   end.
 
 Definition arity (o : prim) : nat :=
   match o with
-  | PNot | PStrLen | PArrLen => 1
+  | PNot | PStrLen | PArrLen | PRecFields | PRecValues => 1
   | _ => 2
   end.
 
